@@ -200,12 +200,14 @@ def pools(tier):
         cfg = [("o1:Ovld,1pos,n<=2,k=3,prio", "ovld", H(1, 2), ["x"], (0, 1), 3, ("plain",), 4),
                ("o1c:Ovld,1pos,n<=1,k=3,call_next", "ovld", H(1, 1), ["x"], (0, 1), 3, ("cn",), 3),
                ("o2:Ovld,2pos,n=1,k=3", "ovld", H(1, 1), ["xy"], (0,), 3, ("plain",), 3),
+               ("o3:Ovld,mixed shapes (optional positional / keyword come and go),n=1,k=3", "ovld", H(1, 1), ["x", "xy", "x*k?", "x?"], (0,), 3, ("plain",), 4),
                ("t1:table,1pos,n<=2,k=3,prio", "map", H(1, 2), ["x"], (0, 1), 3, ("plain",), 4),
                ("t2:table,2pos,n=1,k=3", "map", H(1, 1), ["xy"], (0,), 3, ("plain",), 4)]
     else:
         cfg = [("O1:Ovld,1pos,n<=3,k=3,prio", "ovld", H(1, 3), ["x"], (0, 1), 3, ("plain", "cn"), 6),
                ("O1k4:Ovld,1pos,n<=2,k=4", "ovld", H(1, 2), ["x"], (0, 1), 4, ("plain",), 5),
                ("O2:Ovld,2pos,n<=2,k=3", "ovld", H(1, 2), ["xy"], (0,), 3, ("plain", "cn"), 5),
+               ("O3:Ovld,mixed shapes,n<=2,k=3", "ovld", H(1, 2), ["x", "xy", "xy?", "x*k?", "x*k", "x?"], (0,), 3, ("plain", "cn"), 5),
                ("T1:table,1pos,n<=3,k<=4,prio", "map", H(1, 3), ["x"], (0, 1), 4, ("plain",), 6),
                ("T2:table,2pos,n<=2,k=3", "map", H(1, 2), ["xy"], (0, 1), 3, ("plain",), 6)]
     for name, kind, hiers, shapes, prios, k, bodies, depth in cfg:
@@ -214,7 +216,7 @@ def pools(tier):
             for descs in spaces.multisets(ds, k, k):
                 # every mutation must matter to some probe: an identical-signature pair, or two
                 # methods with different types (so presence/absence changes some call)
-                if len(set(descs)) == len(descs) and len({d[1] for d in descs}) == 1:
+                if len(set(descs)) == len(descs) and len({d[1] for d in descs}) == 1 and len({d[0] for d in descs}) == 1:
                     continue
                 for body in bodies:
                     yield name, kind, h, descs, body, depth
@@ -223,9 +225,19 @@ def pools(tier):
 def run_pool(acc, space, kind, h, descs, body, depth):
     npos = len(descs[0][1])
     names = [tuple(t) for t in itertools.product(h.type_names, repeat=npos)]
-    if kind == "ovld":
+    mixed = len({d[0] for d in descs}) > 1 or any(d[0] not in ("x", "xy") for d in descs)
+    if kind == "ovld" and mixed:
+        # every call shape some method of the pool accepts (one class suffices: the shapes are what varies)
+        calls = spaces.calls_for(h.type_names[-1:], sorted({d[0] for d in descs}))
+        names = [tuple(a) + tuple(f"{k}={v}" for k, v in kw.items()) for a, kw in calls]
+        mspecs = spaces.mspecs_of(descs, body=None if body == "plain" else body)
+        sigma = [(tuple(h.instances[a] for a in args), {k: h.instances[v] for k, v in kw.items()}) for args, kw in calls]
+        if body != "plain" and any(d[0] not in ("x", "xy", "xyz") for d in descs):
+            return
+    elif kind == "ovld":
         mspecs = spaces.mspecs_of(descs, body=None if body == "plain" else body)
         sigma = [(tuple(h.instances[a] for a in t), {}) for t in names]
+    if kind == "ovld":
         model = OvldModel(h.classes, mspecs, sigma)
         casebase = {"space": space, "kind": kind, "hier": h.spec(), "methods": mspecs, "sigma": [list(t) for t in names]}
     else:
@@ -264,7 +276,11 @@ def replay(case):
     op = tuple(case["op"])
     names = [tuple(t) for t in case["sigma"]]
     if case["kind"] == "ovld":
-        sigma = [(tuple(h.instances[a] for a in t), {}) for t in names]
+        sigma = []
+        for t in names:
+            args = tuple(h.instances[a] for a in t if "=" not in a)
+            kw = {a.split("=")[0]: h.instances[a.split("=")[1]] for a in t if "=" in a}
+            sigma.append((args, kw))
         model = OvldModel(h.classes, case["methods"], sigma)
     else:
         model = MapModel(h.classes, [(tuple(t), p) for t, p in case["pool"]], names)
